@@ -507,6 +507,184 @@ unit("plumbing.gather-roundtrip[bounded:depth<=2]", props=["C02"],
      assumptions=["bounded stand-in: argument trees of depth <= 2, width <= 2"], min_obligations=2, kind="bounded")(run_gather_bounded)
 
 
+def run_call_admission(ctx):
+    """bounded: a family of callable KINDS (function, lambda, builtin, class, bound method, partial, hashable and unhashable callable instances,
+    callable without a signature).  Plan.call either rejects a callable (TypeError, nothing added) or admits it; an admitted call must be usable by
+    everything downstream that names it: get_full_call_scope, CallError(call), and a run in which it raises ends in a CallError carrying that call
+    with every 'running' closed (C15) - and one in which it returns delivers its value (C02)"""
+    import dataclasses
+    import functools as ft
+    import threading
+
+    from ujvc.z3env import ensure_repo_first
+
+    ensure_repo_first()
+    import uberjob
+    from uberjob._errors import CallError
+    from uberjob._graph import get_full_call_scope
+
+    @dataclasses.dataclass
+    class UnhashableCallable:
+        tag: str = "u"
+        fail: bool = False
+
+        def __call__(self):
+            if self.fail:
+                raise ValueError("unhashable boom")
+            return ("value", self.tag)
+
+    class HashableCallable:
+        def __init__(self, fail=False):
+            self.fail = fail
+
+        def __call__(self):
+            if self.fail:
+                raise ValueError("hashable boom")
+            return ("value", "h")
+
+    class EqOnly:
+        """defines __eq__ without __hash__: unhashable"""
+        def __init__(self, fail=False):
+            self.fail = fail
+
+        def __eq__(self, other):
+            return self is other
+
+        def __call__(self):
+            if self.fail:
+                raise ValueError("eqonly boom")
+            return ("value", "e")
+
+    class K:
+        def __init__(self):
+            pass
+
+        def m(self):
+            return ("value", "m")
+
+        def bad(self):
+            raise ValueError("method boom")
+
+    def fn():
+        return ("value", "f")
+
+    def fn_bad():
+        raise ValueError("function boom")
+
+    def two(a, b=0):
+        if b:
+            raise ValueError("partial boom")
+        return ("value", "p")
+
+    kinds = [("function", fn, fn_bad), ("lambda", lambda: ("value", "l"), lambda: [][0]), ("class", K, None), ("builtin", dict, None),
+             ("bound-method", K().m, K().bad), ("partial", ft.partial(two, 1), ft.partial(two, 1, 1)),
+             ("hashable-instance", HashableCallable(), HashableCallable(True)), ("unhashable-dataclass", UnhashableCallable(), UnhashableCallable(fail=True)),
+             ("eq-without-hash", EqOnly(), EqOnly(True))]
+
+    class Obs(uberjob.progress.ProgressObserver):
+        def __init__(self):
+            self.ev, self.lock = [], threading.Lock()
+
+        def __enter__(self):
+            self.ev.append(("enter",))
+            return self
+
+        def __exit__(self, *a):
+            self.ev.append(("exit",))
+
+        def increment_total(self, *, section, scope, amount):
+            with self.lock:
+                self.ev.append(("total", section, scope, amount))
+
+        def increment_running(self, *, section, scope):
+            with self.lock:
+                self.ev.append(("running", section, scope))
+
+        def increment_completed(self, *, section, scope):
+            with self.lock:
+                self.ev.append(("completed", section, scope))
+
+        def increment_failed(self, *, section, scope, exception):
+            with self.lock:
+                self.ev.append(("failed", section, scope, exception))
+
+    class P(uberjob.progress.Progress):
+        def __init__(self, o):
+            self.o = o
+
+        def observer(self):
+            return self.o
+
+    def open_runnings(ev):
+        import collections
+        c = collections.Counter()
+        for e in ev:
+            if e[0] == "running":
+                c[(e[1], e[2])] += 1
+            elif e[0] in ("completed", "failed"):
+                c[(e[1], e[2])] -= 1
+        return {k: v for k, v in c.items() if v}
+
+    bad, admitted, rejected = [], 0, 0
+    for name, good, failing in kinds:
+        for which, f in (("ok", good), ("raising", failing)):
+            if f is None:
+                continue
+            plan = uberjob.Plan()
+            n0 = len(plan.graph)
+            try:
+                node = plan.call(f)
+            except TypeError:
+                rejected += 1
+                if len(plan.graph) != n0:
+                    bad.append((name, which, "rejected but the plan was changed"))
+                continue
+            admitted += 1
+            try:
+                scope = get_full_call_scope(node)
+                err = CallError(node)
+                if not (isinstance(scope, tuple) and isinstance(err, Exception) and err.call is node):
+                    bad.append((name, which, f"scope={scope!r} err={err!r}"))
+            except Exception as e:  # noqa: BLE001
+                bad.append((name, which, f"admitted by Plan.call but cannot be named: {type(e).__name__}: {e}"))
+            for workers in (1, 2):
+                obs = Obs()
+                try:
+                    r = uberjob.run(plan, output=node, max_workers=workers, progress=P(obs))
+                    out = ("ret", r)
+                except Exception as e:  # noqa: BLE001
+                    out = ("raise", e)
+                if which == "ok":
+                    if not (out[0] == "ret" and (name in ("class", "builtin") or (isinstance(out[1], tuple) and out[1][0] == "value"))):
+                        bad.append((name, which, workers, f"returning callable: run gave {out!r}"))
+                else:
+                    if not (out[0] == "raise" and isinstance(out[1], CallError) and out[1].call is node and out[1].__cause__ is not None):
+                        bad.append((name, which, workers, f"raising callable: run gave {out!r} instead of a CallError carrying the call"))
+                if open_runnings(obs.ev) or obs.ev[:1] != [("enter",)] or obs.ev[-1:] != [("exit",)]:
+                    bad.append((name, which, workers, f"progress trace not closed: open={open_runnings(obs.ev)} ends={obs.ev[:1]}..{obs.ev[-1:]}"))
+    ctx.check("bounded/every-callable-Plan.call-admits-can-be-named,run,and-reported(CallError-with-the-call;every-running-closed)", bool(not bad),
+              info=f"admitted={admitted} rejected={rejected}; first problems: {bad[:3]}")
+    ctx.check("bounded/callable-kinds-nontrivial", bool(admitted >= 10), info=f"admitted={admitted} rejected={rejected}")
+    return "ok"
+
+
+unit("plumbing.call-admission[bounded:callable-kinds]", props=["C15", "C19", "C02"],
+     functions=[(PL, "Plan.call"), (PL, "Plan._call"), ("_util/validation.py", "try_get_signature"), ("_util/validation.py", "assert_can_bind"),
+                ("_graph.py", "get_full_call_scope"), ("_errors.py", "CallError.__init__"), ("_util/__init__.py", "fully_qualified_name")],
+     assumptions=["bounded stand-in: nine kinds of callable, each returning and raising, 1 and 2 workers"], min_obligations=2, kind="bounded")(run_call_admission)
+
+
+def native_admission_main():
+    import sys
+
+    c = _NativeCtx()
+    run_call_admission(c)
+    for name, info in c.failed:
+        print("C15/C19 violated:", name, info[:1500])
+    print("ok" if not c.failed else "failed")
+    sys.exit(1 if c.failed else 0)
+
+
 class _NativeCtx:
     """stand-alone driver for the bounded round trip (native replay: prints the failing inputs found on the real code)"""
 
@@ -545,4 +723,16 @@ def _replay_gather(ob):
     return {"reproduced": p.returncode == 1, "detail": (p.stdout + p.stderr)[-3000:], "script": GATHER_REPLAY_SCRIPT}
 
 
-REPLAYS = [("plumbing.gather*", _replay_gather), ("plumbing.Plan._call*", _replay_gather), ("argnodes.*", _replay_gather), ("gather.*", _replay_gather)]
+ADMISSION_REPLAY_SCRIPT = f"import sys; sys.path.insert(1, {_VERIF!r}); from contracts.plumbing import native_admission_main; native_admission_main()"
+
+
+def _replay_admission(ob):
+    import os
+
+    from ujvc.z3env import REPO_SRC
+
+    p = __import__('ujvc.units', fromlist=['run_native_p']).run_native_p(["/venv/bin/python", "-c", ADMISSION_REPLAY_SCRIPT], env=dict(os.environ, PYTHONPATH=REPO_SRC), timeout=300)
+    return {"reproduced": p.returncode == 1, "detail": (p.stdout + p.stderr)[-3000:], "script": ADMISSION_REPLAY_SCRIPT}
+
+
+REPLAYS = [("plumbing.call-admission*", _replay_admission), ("plumbing.gather*", _replay_gather), ("plumbing.Plan._call*", _replay_gather), ("argnodes.*", _replay_gather), ("gather.*", _replay_gather)]
